@@ -9,6 +9,7 @@ from e1 import combine
 
 def _handle(prop, engine, results, ev, key_of):
     rc = EXIT_OK
+    printed = set()
     known = {k["key"]: k for k in load_known_findings().get("findings", []) if k.get("engine") == engine and prop in k.get("properties", [k.get("property")])}
     for r in results:
         v = r["verdict"]
@@ -24,7 +25,9 @@ def _handle(prop, engine, results, ev, key_of):
             w = r.get("witness") or {}
             k = known.get(key_of(r))
             if k is not None:
-                print("KNOWN-FINDING: property=%s %s: %s" % (prop, k["key"], k["description"]), flush=True)
+                if k["key"] not in printed:
+                    printed.add(k["key"])
+                    print("KNOWN-FINDING: property=%s %s: %s" % (prop, k["key"], k["description"]), flush=True)
                 ev.known.append({"key": k["key"], "why": w.get("why")})
                 continue
             path = write_replay_file(prop, {"property": prop, "engine": engine, "type": r["type"], "query": r["query"], "witness": w})
@@ -118,12 +121,29 @@ def run_block(prop, ev):
     return _handle(prop, "mtsym-block", results, ev, lambda r: "%s/%s#none" % (prop, r["type"]))
 
 
+def run_tokeniser(prop, ev):
+    """parser::generated::parse_block4_fields on structured block-4 texts (mtsym/tokencheck.py)"""
+    results = e2rules._run("tokencheck", "run", {})
+    ev.assumptions.append("parse_block4_fields and normalize_field_tag are executed from source on five block-4 templates (four fields; a "
+                          "tag repeated three times; option letters with LF separators and surrounding line breaks; two texts ending in a "
+                          "hyphen) whose field contents are symbolic pieces of fixed length over the x character set without ':' and line "
+                          "breaks, first and last character not blank; the HashMap is a map with concrete keys")
+    ev.functions.update(["parser::generated::{parse_block4_fields,normalize_field_tag}"])
+    ev.bounds.append("5 block-4 templates, 2-5 fields each, contents of 3-9 characters")
+    ev.outside.append("field contents containing ':' or line breaks (multi-line values), more than five fields")
+    return _handle(prop, "mtsym-tok4", results, ev, lambda r: "%s/%s#none" % (prop, r["type"]))
+
+
 def replay_file(path):
     """replay of a witness written by one of the source-level field / header checkers: run it on the real build again"""
     from common import replay_batch
     payload = json.load(open(path))
     eng = payload.get("engine", "")
     w = payload.get("witness") or {}
+    if eng == "mtsym-tok4" and "text" in w:
+        out = {"claimed": w.get("why"), "real_dev": replay_batch([{"op": "block4_fields", "text": w["text"]}], "dev", timeout=20)[0]}
+        print(json.dumps(out, indent=1)[:4000])
+        return EXIT_VIOLATION
     if eng == "mtsym-block" and "text" in w:
         out = {"claimed": w.get("why"), "real_dev": replay_batch([{"op": "extract_block", "text": w["text"], "block": w["block"]}], "dev", timeout=20)[0]}
         print(json.dumps(out, indent=1)[:4000])
